@@ -221,7 +221,15 @@ def run(ctx):
     _window_rules(ctx, P)
     _stride_rules(ctx, P)
     _poynting_rules(ctx)
-    ctx.require_count("C17", len(ctx.obligations), 30)
+    # R17.7 / R17.8: the plane the phasor Poynting detector integrates over and the closed-surface integral, composed
+    # from the rules of C16 (relabelled): the axis table of the phasor classes (axis 0 included) and the per-frequency
+    # net flux over the closed surface for one and for two frequencies
+    from . import c16
+
+    c16._axis_tables(ctx, rule="R17.7", only=lambda ci: "Phasor" in ci.name)
+    c16._closed_phasor_net(ctx, rule="R17.8", nfreq=1)
+    c16._closed_phasor_net(ctx, rule="R17.8", nfreq=2)
+    ctx.require_count("C17", len(ctx.obligations), 80)
 
 
 def _window_rules(ctx, P):
